@@ -30,11 +30,16 @@ func VerifC08_Precedence() {
 	inTheme := zzBool("theme")
 	shape := zzChoice("shape", 3) // map, struct, *struct
 	assignFirst := zzBool("assignBeforeFill")
+	nilIn := zzChoice("definedWithNil", 3) // 0 nobody, 1 the front-matter, 2 Assign: the key is present with a nil value
 
 	files := map[string]string{}
 	page := zzC08Page
 	if inFM {
-		page = "---\nk: FM\n---\n" + page
+		if nilIn == 1 {
+			page = "---\nk:\n---\n" + page
+		} else {
+			page = "---\nk: FM\n---\n" + page
+		}
 	}
 	files["page.vuego"] = page
 	if inData {
@@ -74,13 +79,13 @@ func VerifC08_Precedence() {
 	loaded := tpl.Load("page.vuego")
 	if assignFirst {
 		if inAssign {
-			loaded = loaded.Assign("k", "ASSIGN")
+			loaded = loaded.Assign("k", zzC08AssignVal(nilIn))
 		}
 		loaded = loaded.Fill(fillData)
 	} else {
 		loaded = loaded.Fill(fillData)
 		if inAssign {
-			loaded = loaded.Assign("k", "ASSIGN")
+			loaded = loaded.Assign("k", zzC08AssignVal(nilIn))
 		}
 	}
 
@@ -111,6 +116,11 @@ func VerifC08_Precedence() {
 		want = "THEME"
 	}
 
+	// a key that is present with a nil value still ends the search: nothing is printed
+	if (want == "FM" && nilIn == 1) || (want == "ASSIGN" && nilIn == 2) {
+		want = ""
+	}
+
 	w := &zzWriter{limit: 1 << 20}
 	err := loaded.Render(contextBackground(), w)
 	out := string(w.got)
@@ -130,6 +140,13 @@ func VerifC08_Precedence() {
 		// Get reads the template's own variables (front-matter is re-applied at render time)
 		zzAssert(loaded.Get("k") == want, "C08.precedence.get")
 	}
+}
+
+func zzC08AssignVal(nilIn int) any {
+	if nilIn == 2 {
+		return nil
+	}
+	return "ASSIGN"
 }
 
 // VerifC08_Tree: operations on a template created with New/Load never change
